@@ -158,6 +158,18 @@ def run_job(job, workdir):
                 return res
             a = a1
             binf = a1
+    if getattr(job, 'add_library', False):
+        # link CBMC's C library models (ceilf, truncf, ...) before the contract instrumentation, which otherwise treats them as undefined
+        al = os.path.join(jd, 'lib.gb') if 'jd' in dir() else a + '.lib.gb'
+        cmdl = ['goto-instrument', '--add-library', a, al]
+        rc, out, err, t = run(cmdl, 300)
+        res['time'] += t
+        cmds.append(' '.join(cmdl))
+        if rc != 0:
+            res['log'] = 'goto-instrument --add-library failed:\n' + (out + err)[-4000:]
+            return res
+        a = al
+        binf = al
     if job.enforce or job.replace or job.loop_contracts:
         cmd2 = ['goto-instrument', '--dfcc', job.entry]
         if job.enforce:
